@@ -12,7 +12,7 @@ env C14_SCANDIR=reverse  — make os.scandir (as seen by lian/preparation.py) re
 """
 import builtins, json, os, sys
 
-HARVEST = {"map_args": [], "require": [], "array_types": [], "mock_unit": [], "bundle_export": [], "call_paths": [], "path_adds": [],
+HARVEST = {"map_args": [], "require": [], "array_types": [], "mock_unit": [], "original_path": [], "bundle_export": [], "call_paths": [], "path_adds": [],
            "scandir": [], "modules": None, "consts": None}
 LIMIT = 300          # records kept per site
 
@@ -83,6 +83,15 @@ def install():
                           1 if "unit_id" in m else 0] for m in self.module_symbol_results]}
         except Exception as e:
             HARVEST["modules"] = {"error": repr(e)}
+        try:
+            table = [[str(k), str(v)] for k, v in self.dst_file_to_src_file.items()]
+            for m in (self.module_symbol_results if len(table) <= 200 else []):
+                if "unit_id" in m and not m.get("is_extern") and len(HARVEST["original_path"]) < 40:
+                    HARVEST["original_path"].append({"table": table, "entry": str(m["unit_path"]),
+                                                     "real": os.path.realpath(str(m["unit_path"])),
+                                                     "real_out": str(m.get("original_path", ""))})
+        except Exception:
+            pass
         return r
     prep.ModuleSymbolsBuilder.run = msb_run
 
